@@ -71,68 +71,18 @@ fn no_format(_args: core::fmt::Arguments<'_>) -> String {
     String::new()
 }
 
-// @harness
-// @prop C15
-// @tier thorough
-// @timeout 6000
-// @fn Vtx::load (identifier, stereo byte, header fields, strings-block scan, strings re-read)
-// @sym every byte of a VTX file of 16, 18 or 19 bytes (header + 0, 2 or 3 bytes of strings block; length literal per case)
-// @assert for any bytes the loader returns (no panic, no arithmetic overflow, no out-of-bounds) and never keeps polling the reader after the end of the file (which would be an endless loop on a truncated file); a header with player frequency 0 is rejected before the strings block is read; with at most 5 strings bytes the LH5 decoder is not reached, so the result must be an error
-// @bound files of 16/18/19 bytes (unwind 26); with at most 3 strings bytes five terminators cannot be found, so the LH5 decoder is never reached; longer strings blocks and the LH5 body are outside
-// @stub alloc::fmt::format -> empty string (error message formatting is not the subject)
-// @outside (tier) the query encodes the LH5 decoder and from_utf8_lossy behind the strings scan although the bounded files can never reach them - it needs > 25 min, hence thorough tier only; delharc LH5 decoding itself; allocation size of the frame buffer (read off the code: sized by a 32-bit header field, see DESIGN.md)
-#[kani::proof]
-#[kani::unwind(26)]
-#[kani::stub(alloc::fmt::format, no_format)]
-fn c15_vtx_header_and_strings_total() {
-    // file length is a literal in every arm (std::io::Error drop glue explodes with a symbolic length)
-    let sel: u8 = kani::any();
-    kani::assume(sel < 3);
-    match sel {
-        0 => vtx_truncated_case(16),
-        1 => vtx_truncated_case(18),
-        _ => vtx_truncated_case(19),
-    }
-}
+// (c15_vtx_header_and_strings_total, which left the strings bytes symbolic, was removed: it no longer finished
+// within 6000 s; see DESIGN section 12)
 
 // @harness
 // @prop C15
 // @tier quick
-// @timeout 900
-// @fn Vtx::load (identifier, stereo byte, header fields, strings-block scan)
-// @sym every byte of the 16-byte VTX header; the file ends right after it or after 2 or 3 literal strings bytes ("AB", "A\\0B", three terminators)
-// @assert for any header bytes the loader returns Err (no panic, no arithmetic overflow - including the `strings_block_size - 1` of the re-read buffer - no out-of-bounds), never keeps polling the reader after the end of the file, and rejects player frequency 0 on the header alone
-// @bound files of 16/18/19 bytes with literal strings bytes (unwind 26); symbolic strings bytes, longer strings blocks and the LH5 body are outside
-// @stub alloc::fmt::format -> empty string (error message formatting is not the subject)
-// @assume environment: reads issued after the loader has rewound the asset to the strings block fail (a failing asset is within C15's quantifier); this keeps the text-field conversion and the LH5 decoder, which files with fewer than five terminators cannot reach anyway, out of the query
-// @replay solver-only
-#[kani::proof]
-#[kani::unwind(26)]
-#[kani::stub(alloc::fmt::format, no_format)]
-fn c15_vtx_header_and_strings_total_quick() {
-    unsafe {
-        FAIL_READS_AFTER_REWIND = true;
-        REWOUND = false;
-    }
-    let sel: u8 = kani::any();
-    kani::assume(sel < 4);
-    match sel {
-        0 => vtx_literal_tail_case(16, [0, 0, 0]),
-        1 => vtx_literal_tail_case(18, [b'A', b'B', 0]),
-        2 => vtx_literal_tail_case(19, [b'A', 0, b'B']),
-        _ => vtx_literal_tail_case(19, [0, 0, 0]),
-    }
-}
-
-// @harness
-// @prop C15
-// @tier thorough
-// @timeout 3000
+// @timeout 600
 // @fn Vtx::load (identifier, stereo byte, header fields; the file ends where the strings block would start)
 // @sym every byte of a 16-byte VTX file (header only)
-// @assert for any header bytes the loader returns Err without panic or overflow, does not keep polling the reader at the end of the file, and rejects player frequency 0 on the header alone
-// @bound one file length (16 bytes, unwind 26)
-// @stub alloc::fmt::format -> empty string
+// @assert for any header bytes the loader returns Err without panic or arithmetic overflow, does not keep polling the reader at the end of the file (an endless loop on a truncated file), and rejects player frequency 0 on the header alone
+// @bound one file length (16 bytes, unwind 26); strings blocks are the thorough harnesses c15_vtx_strings_tail_*
+// @stub alloc::fmt::format -> empty string (error message formatting is not the subject)
 // @replay solver-only
 #[kani::proof]
 #[kani::unwind(26)]
@@ -143,6 +93,72 @@ fn c15_vtx_header_only_file() {
         REWOUND = false;
     }
     vtx_literal_tail_case(16, [0, 0, 0]);
+}
+
+// @harness
+// @prop C15
+// @tier thorough
+// @timeout 3000
+// @fn Vtx::load (header fields, strings-block scan)
+// @sym every byte of the 16-byte VTX header; the file ends after the literal strings bytes "AB"
+// @assert as c15_vtx_header_only_file, with the strings scan running over a tail that holds fewer than five terminators: Err, no panic, no overflow (including `strings_block_size - 1`), no polling after the end of the file
+// @bound one literal tail (unwind 26); symbolic strings bytes, longer strings blocks and the LH5 body are outside
+// @stub alloc::fmt::format -> empty string
+// @assume environment: reads issued after the loader has rewound the asset to the strings block fail (a failing asset is within C15's quantifier)
+// @replay solver-only
+#[kani::proof]
+#[kani::unwind(26)]
+#[kani::stub(alloc::fmt::format, no_format)]
+fn c15_vtx_strings_tail_ab() {
+    unsafe {
+        FAIL_READS_AFTER_REWIND = true;
+        REWOUND = false;
+    }
+    vtx_literal_tail_case(18, [b'A', b'B', 0]);
+}
+
+// @harness
+// @prop C15
+// @tier thorough
+// @timeout 3000
+// @fn Vtx::load (header fields, strings-block scan)
+// @sym every byte of the 16-byte VTX header; the file ends after the literal strings bytes "A\\0B"
+// @assert as c15_vtx_header_only_file, with the strings scan running over a tail that holds fewer than five terminators: Err, no panic, no overflow (including `strings_block_size - 1`), no polling after the end of the file
+// @bound one literal tail (unwind 26); symbolic strings bytes, longer strings blocks and the LH5 body are outside
+// @stub alloc::fmt::format -> empty string
+// @assume environment: reads issued after the loader has rewound the asset to the strings block fail (a failing asset is within C15's quantifier)
+// @replay solver-only
+#[kani::proof]
+#[kani::unwind(26)]
+#[kani::stub(alloc::fmt::format, no_format)]
+fn c15_vtx_strings_tail_a0b() {
+    unsafe {
+        FAIL_READS_AFTER_REWIND = true;
+        REWOUND = false;
+    }
+    vtx_literal_tail_case(19, [b'A', 0, b'B']);
+}
+
+// @harness
+// @prop C15
+// @tier thorough
+// @timeout 3000
+// @fn Vtx::load (header fields, strings-block scan)
+// @sym every byte of the 16-byte VTX header; the file ends after the literal strings bytes three terminators
+// @assert as c15_vtx_header_only_file, with the strings scan running over a tail that holds fewer than five terminators: Err, no panic, no overflow (including `strings_block_size - 1`), no polling after the end of the file
+// @bound one literal tail (unwind 26); symbolic strings bytes, longer strings blocks and the LH5 body are outside
+// @stub alloc::fmt::format -> empty string
+// @assume environment: reads issued after the loader has rewound the asset to the strings block fail (a failing asset is within C15's quantifier)
+// @replay solver-only
+#[kani::proof]
+#[kani::unwind(26)]
+#[kani::stub(alloc::fmt::format, no_format)]
+fn c15_vtx_strings_tail_000() {
+    unsafe {
+        FAIL_READS_AFTER_REWIND = true;
+        REWOUND = false;
+    }
+    vtx_literal_tail_case(19, [0, 0, 0]);
 }
 
 /// header bytes symbolic, strings bytes literal: the number of terminators found is then a constant for the
@@ -163,25 +179,7 @@ fn vtx_literal_tail_case(len: usize, tail: [u8; 3]) {
     if data[9] == 0 {
         kani::assert(unsafe { MAX_POS } <= 16, "c15.vtx.zero_player_frequency_rejected_on_header");
     }
-    kani::cover!(data[0] == b'a' && data[1] == b'y' && data[2] == 1 && len == 19 && data[9] == 50, "valid header, strings block cut short");
-    kani::cover!(data[0] == b'y' && data[1] == b'm' && data[2] == 6 && data[9] == 0, "YM identifier, CBA stereo, player frequency 0");
-}
-
-fn vtx_truncated_case(len: usize) {
-    let data: [u8; 24] = kani::any();
-    unsafe {
-        MAX_POS = 0;
-    }
-    let r = Vtx::load(CountingReader { data, len, pos: 0, eof_reads: 0 });
-    let ok = r.is_ok();
-    core::mem::forget(r);
-    kani::assert(!ok, "c15.vtx.truncated_file_is_rejected");
-    // a player frequency of 0 (offset 9) can never be played: the file is rejected on its header,
-    // before the strings block is even looked at (this is what lets the player harness assume pf >= 1)
-    if data[9] == 0 {
-        kani::assert(unsafe { MAX_POS } <= 16, "c15.vtx.zero_player_frequency_rejected_on_header");
-    }
-    kani::cover!(data[0] == b'a' && data[1] == b'y' && data[2] == 1 && len == 19 && data[9] == 50, "valid header, strings block cut short");
+    kani::cover!(data[0] == b'a' && data[1] == b'y' && data[2] == 1 && data[9] == 50, "valid header, file cut short behind it");
     kani::cover!(data[0] == b'y' && data[1] == b'm' && data[2] == 6 && data[9] == 0, "YM identifier, CBA stereo, player frequency 0");
 }
 
